@@ -87,6 +87,13 @@ func (handler *DecryptionKeyShareHandler) ValidateMessage(ctx context.Context, m
 
 func checkKeyShares(keyShare *p2pmsg.DecryptionKeyShares, pureDKGResult *puredkg.Result) (pubsub.ValidationResult, error) {
 	shares := keyShare.GetShares()
+	if keyShare.KeyperIndex >= uint64(len(pureDKGResult.PublicKeyShares)) {
+		return pubsub.ValidationReject, errors.Errorf(
+			"keyper index %d out of range (keyper set has %d members)",
+			keyShare.KeyperIndex,
+			len(pureDKGResult.PublicKeyShares),
+		)
+	}
 	for i, share := range shares {
 		epochSecretKeyShare, err := share.GetEpochSecretKeyShare()
 		if err != nil {
